@@ -506,6 +506,47 @@ impl<DP: DependencyProvider> PartialSolution<DP> {
     }
 }
 
+#[cfg(pubgrub_verif)]
+impl<DP: DependencyProvider> PartialSolution<DP> {
+    /// Verification hook: canonical multi-line text of the partial solution.
+    pub(crate) fn verif_snapshot(&self) -> String {
+        let mut queue: Vec<String> = self
+            .prioritized_potential_packages
+            .iter()
+            .map(|(p, _)| p.to_string())
+            .collect();
+        queue.sort();
+        let mut out = format!(
+            "ps;dl={};next={};changed={};bt={};queue={}",
+            self.current_decision_level.0,
+            self.next_global_index,
+            self.changed_this_decision_level,
+            self.has_ever_backtracked as u8,
+            queue.join(",")
+        );
+        for (p, pa) in self.package_assignments.iter() {
+            let current = match &pa.assignments_intersection {
+                AssignmentsIntersection::Decision((gidx, v, _)) => format!("D {} {}", gidx, v),
+                AssignmentsIntersection::Derivations(t) => format!("T {}", t),
+            };
+            out.push_str(&format!(
+                "\npa;{};{}..{};{}",
+                p, pa.smallest_decision_level.0, pa.highest_decision_level.0, current
+            ));
+            for dd in pa.dated_derivations.iter() {
+                out.push_str(&format!(
+                    ";dd {}/{}/{}/{}",
+                    dd.global_index,
+                    dd.decision_level.0,
+                    dd.cause.into_raw(),
+                    dd.accumulated_intersection
+                ));
+            }
+        }
+        out
+    }
+}
+
 impl<P: Package, VS: VersionSet, M: Eq + Clone + Debug + Display> PackageAssignments<P, VS, M> {
     fn satisfier(
         &self,
